@@ -330,7 +330,7 @@ pub fn par_each<T: Sync>(items: &[T], threads: usize, f: impl Fn(&T, &mut Report
         }
         return total;
     }
-    let reports: Vec<Report> = std::thread::scope(|sc| {
+    let reports: Vec<Report> = wd_waiting(|| std::thread::scope(|sc| {
         let mut hs = Vec::new();
         for t in 0..threads {
             let f = &f;
@@ -349,7 +349,7 @@ pub fn par_each<T: Sync>(items: &[T], threads: usize, f: impl Fn(&T, &mut Report
             }));
         }
         hs.into_iter().map(|h| h.join().expect("engine thread panicked (machinery)")).collect()
-    });
+    }));
     for r in reports {
         total.merge(r);
     }
@@ -423,14 +423,14 @@ thread_local! {
 }
 
 /// Every call into konst runs inside catch(); a thread that sits inside one catch() without entering or leaving
-/// another for `limit` seconds is executing a call that does not return (the explored inputs are tiny: a call takes
+/// another for `limit` seconds (default 120) is executing a call that does not return (the explored inputs are tiny: a call takes
 /// microseconds).  The watchdog names the call site and ends the process with status 3; the driver turns that into a
 /// verdict ("does not terminate"), not into a machinery failure.  Not used under the interpreter.
 pub fn start_watchdog() {
     if cfg!(miri) {
         return;
     }
-    let limit: u64 = std::env::var("VERIF_HANG_LIMIT").ok().and_then(|s| s.parse().ok()).unwrap_or(60);
+    let limit: u64 = std::env::var("VERIF_HANG_LIMIT").ok().and_then(|s| s.parse().ok()).unwrap_or(120);
     std::thread::spawn(move || {
         use std::sync::atomic::Ordering::Relaxed;
         let mut last: Vec<(u64, std::time::Instant)> = (0..WD_SLOTS).map(|_| (0, std::time::Instant::now())).collect();
@@ -491,6 +491,26 @@ pub fn catch<T>(f: impl FnOnce() -> T) -> Result<T, String> {
     w.seq.store(w.seq.load(Relaxed) + 1, Relaxed);
     let r = catch_inner(f);
     w.depth.store(w.depth.load(Relaxed) - 1, Relaxed);
+    w.seq.store(w.seq.load(Relaxed) + 1, Relaxed);
+    r
+}
+
+/// catch() without watchdog accounting: for the wrappers under which a thread legitimately sits for a long time
+/// (the main thread around a whole engine run)
+pub fn catch_outer<T>(f: impl FnOnce() -> T) -> Result<T, String> {
+    catch_inner(f)
+}
+
+/// the calling thread is about to block while worker threads explore: not "inside a call" for the watchdog
+fn wd_waiting<T>(f: impl FnOnce() -> T) -> T {
+    use std::sync::atomic::Ordering::Relaxed;
+    if cfg!(miri) {
+        return f();
+    }
+    let w = &WD[WD_SLOT.with(|s| *s)];
+    let d = w.depth.swap(0, Relaxed);
+    let r = f();
+    w.depth.store(d, Relaxed);
     w.seq.store(w.seq.load(Relaxed) + 1, Relaxed);
     r
 }
